@@ -2630,7 +2630,7 @@ Lemma push_production_spec tb o c p c' : push_production tb o c p = Continue c' 
 Proof.
   unfold push_production. intros H. destruct (prod_at tb p) as [pr|]; [|discriminate].
   destruct (p_lhs pr <? tb_nnts tb)%N eqn:E; cbn [negb] in H; [|discriminate].
-  exists pr. split; [reflexivity|]. split; [reflexivity|].
+  exists pr. split; [reflexivity|]. split; [exact E|].
   destruct (o_max_depth o) as [m|].
   - destruct (N.ltb_spec m (if p_push pr then c_depth c else N.succ (c_depth c))) as [L|L]; [discriminate|].
     inversion H; subst c'. split; [reflexivity|exact L].
@@ -2674,9 +2674,9 @@ Proof.
   - unfold end_production in H. destruct (prod_at tb p) as [pr|] eqn:Hp; [|discriminate].
     unfold count_open in Hd. cbn [filter] in Hd. rewrite Hp in Hd. fold (count_open tb st') in Hd.
     destruct (p_push pr); cbn [negb] in Hd.
-    + break_matches H; inversion H; subst c'. cbn [c_depth c_stack]. exact Hd.
+    + break_matches H; inversion H; subst c'; cbn [c_depth c_stack]; unfold count_open; exact Hd.
     + cbn [length] in Hd. destruct (N.eqb_spec (c_depth c) 0); [discriminate|].
-      break_matches H; inversion H; subst c'. cbn [c_depth c_stack]. unfold count_open in *. lia.
+      break_matches H; inversion H; subst c'; cbn [c_depth c_stack]; unfold count_open in *; lia.
 Qed.
 
 Theorem depth_counts_open_productions : forall orc tb opts s0 c0 c,
@@ -2696,7 +2696,7 @@ Proof.
     - destruct (handle_prediction_error orc tb opts _ _ d) as [q c1|r' n c1|site] eqn:Eh; try discriminate.
       apply hpe_ok in Eh. cbn [set_stream c_stack c_depth] in Eh. destruct Eh as (_ & H1 & _ & _ & _ & H5 & _).
       eapply Hpush; [exact H1|exact H5|exact Hi]. }
-  induction Hr as [c|c c1 c' _ Hs _ IH]; [exact H0|]. apply IH. eapply step_count_open; eassumption.
+  clear Hi. induction Hr as [c|c c1 c' _ Hs _ IH]; [exact H0|]. apply IH. eapply step_count_open; eassumption.
 Qed.
 
 (** The local form of the depth-limit error: a push beyond the limit returns the error. *)
@@ -2776,12 +2776,12 @@ Proof.
     + destruct (handle_prediction_error orc tb o1 _ a d) as [q c1x|r' n c1x|site] eqn:Eh; try discriminate.
       apply hpe_ok in Eh as (Hne & _). apply push_production_shape in H as (E & _).
       cbn [set_stack c_errs] in E. congruence.
-  - unfold end_production in *. rewrite <- E3, <- E7, E5, E6.
+  - unfold end_production in *. rewrite <- E3, <- E7, E6. rewrite E5 in H.
     destruct (prod_at tb p) as [pr|]; [|discriminate].
     destruct (if p_push pr then Some (c_depth c1) else if (c_depth c1 =? 0)%N then None else Some (N.pred (c_depth c1)))
       as [depth'|]; [|discriminate].
     destruct (split_rev (length (p_rev pr)) (c_pts c1) []) as [[children pts']|]; [|discriminate].
-    rewrite E5 in H. inversion H; subst c1'.
+    inversion H; subst c1'.
     eexists. split; [|left; reflexivity].
     unfold osim. cbn [c_stack c_stream c_pts c_acts c_errs c_depth c_evs]. rewrite E4.
     repeat split; auto. intros Ht. rewrite <- Ht, (E8 Ht). reflexivity.
@@ -2804,9 +2804,9 @@ Proof.
       apply push_production_spec in H as (_ & _ & _ & _ & Hl). rewrite Hm in Hl. exact Hl.
   - unfold end_production in H. destruct (prod_at tb p) as [pr|]; [|discriminate].
     destruct (p_push pr).
-    + break_matches H; inversion H; subst c'. exact Hd.
+    + break_matches H; inversion H; subst c'; exact Hd.
     + destruct (N.eqb_spec (c_depth c) 0); [discriminate|].
-      break_matches H; inversion H; subst c'. cbn [c_depth]. lia.
+      break_matches H; inversion H; subst c'; cbn [c_depth]; lia.
 Qed.
 
 Lemma osim_finish c1 c2 a e : osim c1 c2 -> ll_finish c1 = Accepted a e ->
@@ -2818,33 +2818,46 @@ Proof.
   eexists. split; [reflexivity|]. intros Ht. rewrite (E8 Ht). reflexivity.
 Qed.
 
+End Options.
+
+Section OptionsPeak.
+Variable orc : oracle.
+Variable tb : ll_tables.
+Variable o1 : options.
+Hypothesis Hok : tables_ok_basic tb = true.
+Hypothesis Hrec1 : o_recovery o1 = false \/ la_wf tb = true.
+
 (** The peak depth [d] of an accepted run decides what every other limit does. *)
-Lemma loop_options fuel : forall c1 c2 a e,
-  osim c1 c2 -> (forall m1, o_max_depth o1 = Some m1 -> (c_depth c1 <= m1)%N) ->
+Lemma loop_options fuel : forall c1 a e,
+  (forall m1, o_max_depth o1 = Some m1 -> (c_depth c1 <= m1)%N) ->
   ll_loop orc tb o1 fuel c1 = Accepted a e ->
   exists d, (c_depth c1 <= d)%N /\ fits d (o_max_depth o1) /\
+    forall o2 c2, osim o1 o2 c1 c2 ->
     (fits d (o_max_depth o2) ->
      exists e2, ll_loop orc tb o2 fuel c2 = Accepted a e2 /\ (o_trim o1 = o_trim o2 -> e2 = e)) /\
     (forall m, o_max_depth o2 = Some m -> (c_depth c1 <= m)%N -> (m < d)%N ->
                ll_loop orc tb o2 fuel c2 = DepthExceeded).
 Proof.
-  induction fuel as [|fuel IH]; intros c1 c2 a e Hsim Hl1 H; [discriminate|].
-  pose proof Hsim as (E1 & _). cbn [ll_loop] in H |- *. rewrite <- E1.
-  destruct (input_accepted (c_stack c1)).
+  induction fuel as [|fuel IH]; intros c1 a e Hl1 H; [discriminate|].
+  cbn [ll_loop] in H.
+  destruct (input_accepted (c_stack c1)) eqn:Hacc1.
   - exists (c_depth c1). split; [lia|]. split.
     + unfold fits. destruct (o_max_depth o1) as [m1|]; [apply Hl1; reflexivity|exact I].
-    + split; [intros _; eapply osim_finish; eassumption|]. intros m _ Hle Hlt. lia.
+    + intros o2 c2 Hsim. pose proof Hsim as (E1 & _). cbn [ll_loop]. rewrite <- E1, Hacc1.
+      split; [intros _; eapply osim_finish; eassumption|]. intros m _ Hle Hlt. lia.
   - destruct (ll_step orc tb o1 c1) as [c1'|c1'|r] eqn:Es.
     + assert (He' : c_errs c1' = []).
       { destruct (c_errs c1') eqn:E; [reflexivity|]. exfalso.
         eapply (errs_stuck_loop orc tb o1 Hok Hrec1); [|exact H]. rewrite E. discriminate. }
-      destruct (osim_step c1 c2 c1' Hsim Es He') as (c2' & Hsim' & Hstep2).
       assert (Hl1' : forall m1, o_max_depth o1 = Some m1 -> (c_depth c1' <= m1)%N).
       { intros m1 Hm1. eapply step_depth_limit; [exact Es|exact Hm1|apply Hl1; exact Hm1]. }
-      destruct (IH c1' c2' a e Hsim' Hl1' H) as (d' & Hd1 & Hf1 & Hacc & Hexc).
+      destruct (IH c1' a e Hl1' H) as (d' & Hd1 & Hf1 & Hall).
       exists (N.max (c_depth c1) d'). split; [lia|]. split.
       { unfold fits in *. destruct (o_max_depth o1) as [m1|]; [|exact I].
         specialize (Hl1 m1 eq_refl). lia. }
+      intros o2 c2 Hsim. pose proof Hsim as (E1 & _). cbn [ll_loop]. rewrite <- E1, Hacc1.
+      destruct (osim_step orc tb o1 o2 c1 c2 c1' Hsim Es He') as (c2' & Hsim' & Hstep2).
+      destruct (Hall o2 c2' Hsim') as (Hacc & Hexc).
       split.
       * intros Hf. destruct Hstep2 as [Hs2|(m & Hm & Hlt & _)].
         -- rewrite Hs2. apply Hacc. unfold fits in *. destruct (o_max_depth o2); [lia|exact I].
@@ -2860,7 +2873,7 @@ Qed.
 
 Lemma run_located_options fuel ltoks eloc a e :
   ll_run_located orc tb o1 fuel ltoks eloc = Accepted a e ->
-  exists d, fits d (o_max_depth o1) /\
+  exists d, fits d (o_max_depth o1) /\ forall o2,
     (fits d (o_max_depth o2) ->
      exists e2, ll_run_located orc tb o2 fuel ltoks eloc = Accepted a e2 /\ (o_trim o1 = o_trim o2 -> e2 = e)) /\
     (forall m, o_max_depth o2 = Some m -> (m < d)%N ->
@@ -2873,16 +2886,19 @@ Proof.
   assert (He : c_errs c1 = []).
   { destruct (c_errs c1) eqn:E; [reflexivity|]. exfalso.
     eapply (errs_stuck_loop orc tb o1 Hok Hrec1); [|exact H]. rewrite E. discriminate. }
-  unfold ll_init in Ei |- *.
-  destruct (dfa_at tb (tb_start tb)) as [d0|]; [|discriminate].
-  destruct (predict tb d0 s0) as [[q| |pe] s1]; [| discriminate |].
+  unfold ll_init in Ei.
+  destruct (dfa_at tb (tb_start tb)) as [d0|] eqn:Ed0; [|discriminate].
+  destruct (predict tb d0 s0) as [[q| |pe] s1] eqn:Ep; [| discriminate |].
   - set (cA := set_stream (mkConfig [] s0 [] [] [OpenRoot] [] 0%N) s1) in *.
-    assert (Hsim0 : osim cA cA) by (unfold osim; repeat split; auto).
-    destruct (osim_push cA cA q c1 Hsim0 Ei) as (c2 & Hsim & Hp2).
     assert (Hl1 : forall m1, o_max_depth o1 = Some m1 -> (c_depth c1 <= m1)%N).
-    { intros m1 Hm1. apply push_production_spec in Ei as (_ & _ & _ & _ & Hl). rewrite Hm1 in Hl. exact Hl. }
-    destruct (loop_options fuel c1 c2 a e Hsim Hl1 H) as (d & Hd1 & Hf1 & Hacc & Hexc).
-    exists d. split; [exact Hf1|]. split.
+    { intros m1 Hm1. pose proof Ei as Ei'. apply push_production_spec in Ei' as (_ & _ & _ & _ & Hl).
+      rewrite Hm1 in Hl. exact Hl. }
+    destruct (loop_options fuel c1 a e Hl1 H) as (d & Hd1 & Hf1 & Hall).
+    exists d. split; [exact Hf1|]. intros o2.
+    assert (Hsim0 : osim o1 o2 cA cA) by (unfold osim; repeat split; auto).
+    destruct (osim_push tb o1 o2 cA cA q c1 Hsim0 Ei) as (c2 & Hsim & Hp2).
+    destruct (Hall o2 c2 Hsim) as (Hacc & Hexc).
+    unfold ll_init. rewrite Ed0, Ep. fold cA. split.
     + intros Hf. destruct Hp2 as [Hp2|(m & Hm & Hlt & _)].
       * rewrite Hp2. apply Hacc. exact Hf.
       * exfalso. unfold fits in Hf. rewrite Hm in Hf. lia.
@@ -2895,7 +2911,7 @@ Proof.
     apply hpe_ok in Eh as (Hne & _). apply push_production_shape in Ei as (E & _). congruence.
 Qed.
 
-End Options.
+End OptionsPeak.
 
 (** The peak depth [d] of an accepted run: every option set whose limit admits [d] gives the same
     verdict and the same semantic-action calls with the same fuel (and the same events if
@@ -2909,37 +2925,116 @@ Theorem ll_options_peak_any_oracle : forall orc f tb o1 toks a e,
 Proof.
   intros orc f tb o1 toks a e Hok H. apply tables_ok_split in Hok as [H1 H2].
   unfold ll_run_with in *. destruct (forallb significant toks); [|discriminate].
-  assert (Hd : exists d, fits d (o_max_depth o1) /\ forall o2,
+  eapply run_located_options; eauto.
+Qed.
+
+Theorem ll_options_peak : forall f tb o1 toks a e,
+  tables_ok tb = true -> ll_run f tb o1 toks = Accepted a e ->
+  exists d, fits d (o_max_depth o1) /\ forall o2,
     (fits d (o_max_depth o2) ->
-     exists e2, ll_run_located orc tb o2 f (locate toks LOC_FIRST) LOC_END = Accepted a e2 /\
-                (o_trim o1 = o_trim o2 -> e2 = e)) /\
-    (forall m, o_max_depth o2 = Some m -> (m < d)%N ->
-               ll_run_located orc tb o2 f (locate toks LOC_FIRST) LOC_END = DepthExceeded)).
-  { (* the peak does not depend on [o2]: take it from the comparison of [o1] with itself *)
-    destruct (run_located_options orc tb o1 o1 H1 (or_intror H2) f _ _ a e H) as (d & Hf & _ & _).
-    assert (Hmin : exists d, fits d (o_max_depth o1) /\ forall o2,
-       exists d2, (d2 = d) /\
-         (fits d2 (o_max_depth o2) ->
-          exists e2, ll_run_located orc tb o2 f (locate toks LOC_FIRST) LOC_END = Accepted a e2 /\
-                     (o_trim o1 = o_trim o2 -> e2 = e)) /\
-         (forall m, o_max_depth o2 = Some m -> (m < d2)%N ->
-                    ll_run_located orc tb o2 f (locate toks LOC_FIRST) LOC_END = DepthExceeded)).
-    { (* use the unlimited variant of [o1] to pin the peak down *)
-      set (ou := mkOptions (o_recovery o1) (o_trim o1) None).
-      destruct (run_located_options orc tb o1 ou H1 (or_intror H2) f _ _ a e H) as (du & Hfu & Haccu & _).
-      destruct (Haccu I) as (eu & Hu & _).
-      exists du. split; [exact Hfu|]. intros o2. exists du. split; [reflexivity|].
-      destruct (run_located_options orc tb o1 o2 H1 (or_intror H2) f _ _ a e H) as (d2 & Hf2 & Hacc2 & Hexc2).
-      (* both [du] and [d2] are peaks of the same run; compare them through the limits [Some du], [Some d2] *)
-      split.
-      - intros Hfit. destruct (N.le_gt_cases d2 du) as [L|L].
-        + apply Hacc2. unfold fits in *. destruct (o_max_depth o2); [lia|exact I].
-        + exfalso.
-          (* limit [du] < d2: the run with that limit is both accepted (peak du) and DepthExceeded (peak d2) *)
-          set (ol := mkOptions (o_recovery o1) (o_trim o1) (Some du)).
-          destruct (run_located_options orc tb o1 ol H1 (or_intror H2) f _ _ a e H) as (dl & _ & _ & _).
-          destruct (run_located_options orc tb o1 ol H1 (or_intror H2) f _ _ a e H) as (dl' & Hfl & Haccl & Hexcl).
-          clear dl.
-          (* direct argument instead: the unlimited run accepted means the peak of every comparison is the same;
-             we avoid it by comparing [o2] with itself below *)
-          Abort.
+     exists e2, ll_run f tb o2 toks = Accepted a e2 /\ (o_trim o1 = o_trim o2 -> e2 = e)) /\
+    (forall m, o_max_depth o2 = Some m -> (m < d)%N -> ll_run f tb o2 toks = DepthExceeded).
+Proof. intros f tb o1 toks a e. apply ll_options_peak_any_oracle. Qed.
+
+Lemma fits_limit_le d l1 l2 : fits d l1 -> limit_le l1 l2 -> fits d l2.
+Proof.
+  unfold fits, limit_le. destruct l2 as [m2|]; [|auto]. destruct l1 as [m1|]; [lia|tauto].
+Qed.
+
+(** Acceptance and the sequence of semantic actions do not depend on [o_trim], on [o_recovery],
+    or on a depth limit at least as permissive as one under which the run was accepted. *)
+Theorem ll_options_verdict_fuel : forall f1 tb o1 o2 toks a1 e1,
+  tables_ok tb = true -> ll_run f1 tb o1 toks = Accepted a1 e1 ->
+  limit_le (o_max_depth o1) (o_max_depth o2) ->
+  exists e2, ll_run f1 tb o2 toks = Accepted a1 e2 /\ (o_trim o1 = o_trim o2 -> e2 = e1).
+Proof.
+  intros f1 tb o1 o2 toks a1 e1 Hok H Hl.
+  destruct (ll_options_peak f1 tb o1 toks a1 e1 Hok H) as (d & Hf & Hall).
+  destruct (Hall o2) as (Hacc & _). apply Hacc. eapply fits_limit_le; eassumption.
+Qed.
+
+Theorem ll_options_verdict : forall f1 tb o1 o2 toks a1 e1,
+  tables_ok tb = true -> ll_run f1 tb o1 toks = Accepted a1 e1 ->
+  limit_le (o_max_depth o1) (o_max_depth o2) ->
+  exists f2 e2, ll_run f2 tb o2 toks = Accepted a1 e2.
+Proof.
+  intros f1 tb o1 o2 toks a1 e1 Hok H Hl.
+  destruct (ll_options_verdict_fuel f1 tb o1 o2 toks a1 e1 Hok H Hl) as (e2 & H2 & _). eauto.
+Qed.
+
+(** Exceeding the depth limit yields the depth-limit error: for an input that is accepted
+    without a limit there is a depth [d] (the peak of [production_depth]) such that exactly the
+    limits below [d] give [DepthExceeded] (never a panic, never [Accepted]) and all others accept. *)
+Theorem ll_depth_limit_error : forall f tb o toks a e,
+  tables_ok tb = true -> o_max_depth o = None -> ll_run f tb o toks = Accepted a e ->
+  exists d, forall m rc tr,
+    ((m < d)%N -> ll_run f tb (mkOptions rc tr (Some m)) toks = DepthExceeded) /\
+    ((d <= m)%N -> exists e2, ll_run f tb (mkOptions rc tr (Some m)) toks = Accepted a e2).
+Proof.
+  intros f tb o toks a e Hok Hn H.
+  destruct (ll_options_peak f tb o toks a e Hok H) as (d & _ & Hall).
+  exists d. intros m rc tr. destruct (Hall (mkOptions rc tr (Some m))) as (Hacc & Hexc). split.
+  - intros Hlt. apply (Hexc m); [reflexivity|exact Hlt].
+  - intros Hle. destruct (Hacc Hle) as (e2 & H2 & _). eauto.
+Qed.
+
+(** Rejection: if some option set rejects the input (a final verdict, not [OutOfFuel] or the
+    depth-limit error), no option set with an at most as permissive depth limit accepts it,
+    whatever the fuel; with named tokens the result is therefore [Rejected], [DepthExceeded] or
+    [OutOfFuel]. *)
+Theorem ll_options_reject : forall f f' tb o1 o2 toks r n,
+  tables_ok tb = true -> ll_run f tb o1 toks = Rejected r n ->
+  limit_le (o_max_depth o2) (o_max_depth o1) ->
+  forall a e, ll_run f' tb o2 toks <> Accepted a e.
+Proof.
+  intros f f' tb o1 o2 toks r n Hok H Hl a e H2.
+  destruct (ll_options_verdict_fuel f' tb o2 o1 toks a e Hok H2 Hl) as (e1 & H1 & _).
+  assert (Ha : ll_run (f + f') tb o1 toks = Rejected r n).
+  { rewrite ll_run_fuel_mono; [exact H|]. rewrite H. discriminate. }
+  assert (Hb : ll_run (f' + f) tb o1 toks = Accepted a e1).
+  { rewrite ll_run_fuel_mono; [exact H1|]. rewrite H1. discriminate. }
+  rewrite Nat.add_comm in Hb. congruence.
+Qed.
+
+Corollary ll_options_reject_classes : forall f f' tb o1 o2 toks r n,
+  tables_ok tb = true -> ll_run f tb o1 toks = Rejected r n ->
+  limit_le (o_max_depth o2) (o_max_depth o1) ->
+  forallb (fun t => (t <? tb_nterms tb)%N) toks = true ->
+  (exists r' n', ll_run f' tb o2 toks = Rejected r' n') \/
+  ll_run f' tb o2 toks = DepthExceeded \/ ll_run f' tb o2 toks = OutOfFuel.
+Proof.
+  intros f f' tb o1 o2 toks r n Hok H Hl Hn.
+  pose proof (ll_options_reject f f' tb o1 o2 toks r n Hok H Hl) as Hna.
+  pose proof (ll_no_panic f' tb o2 toks) as Hnp.
+  destruct (ll_run f' tb o2 toks) as [a e|r' n'| | |site|] eqn:E; eauto.
+  - exfalso. eapply Hna. reflexivity.
+  - exfalso. eapply (Hnp site); auto.
+  - exfalso. unfold ll_run, ll_run_with in H, E. destruct (forallb significant toks); [|discriminate].
+    (* a located run never answers [BadInput] *)
+    unfold ll_run_located in E. destruct (ll_init _ _ _ _) as [c|c|r0] eqn:Ei.
+    + clear -E. revert c E. induction f' as [|f' IH]; intros c E; [discriminate|]. cbn [ll_loop] in E.
+      destruct (input_accepted (c_stack c)); [unfold ll_finish in E; break_matches E; discriminate|].
+      destruct (ll_step _ _ _ c) as [c'|c'|r0] eqn:Es; [eapply IH; exact E|unfold ll_finish in E; break_matches E; discriminate|].
+      subst r0. unfold ll_step, push_production, end_production, handle_token_mismatch in Es.
+      break_matches Es; discriminate.
+    + unfold ll_finish in E; break_matches E; discriminate.
+    + subst r0. unfold ll_init, push_production in Ei. break_matches Ei; discriminate.
+Qed.
+
+Example ex_options :
+  limit_le (o_max_depth ex_opts) (o_max_depth (mkOptions true true None)) /\
+  ll_run 11 ex_tables (mkOptions true true None) [5; 5; 7; 6; 6]%N =
+  Accepted [ (1, [T 7]); (0, [T 5; NT 0; T 6]); (0, [T 5; NT 0; T 6]) ]%N [OpenRoot; Close] /\
+  ll_run 11 ex_tables (mkOptions true true (Some 3%N)) [5; 5; 7; 6; 6]%N =
+  Accepted [ (1, [T 7]); (0, [T 5; NT 0; T 6]); (0, [T 5; NT 0; T 6]) ]%N [OpenRoot; Close] /\
+  ll_run 11 ex_tables (mkOptions true true (Some 2%N)) [5; 5; 7; 6; 6]%N = DepthExceeded.
+Proof. repeat split; vm_compute; reflexivity. Qed.
+
+Print Assumptions accepted_no_errors.
+Print Assumptions depth_counts_open_productions.
+Print Assumptions ll_options_peak.
+Print Assumptions ll_options_verdict.
+Print Assumptions ll_options_verdict_fuel.
+Print Assumptions ll_depth_limit_error.
+Print Assumptions ll_options_reject.
+Print Assumptions ll_options_reject_classes.
